@@ -86,7 +86,8 @@ def check(case) -> Result:
     for j, r in enumerate(runs):
         dt = [float(Fr(r['m'], 10 ** r['e'])), r['unit']]
         T = [_T(r), r['t_unit']]
-        op = {'op': 'run', 'dt': dt, 'T': T, 'stop': stop_on and j == 0, 'new_solver': bool(j and r.get('new_solver'))}
+        op = {'op': 'run', 'dt': dt, 'T': T, 'stop': stop_on and j == 0, 'new_solver': bool(j and r.get('new_solver')),
+              'dt_inplace': r.get('dt_inplace'), 'T_inplace': r.get('T_inplace')}
         n_before = len(b.powertrain.time)
         try:
             S.run_op(b, op)
@@ -125,6 +126,24 @@ def check(case) -> Result:
             res.bad(f'C11/{"fresh" if j == 0 else "continuation"}/overruns-T',
                     f'{case}: run {j}: last instant {float(max(got))!r} s beyond the requested end {float(Tend)!r} s')
         t_end = Tend
+    if case.get('rerun') and not res.violations:
+        # reset, re-apply the initial conditions, run again with the SAME Solver: a fresh grid from 0
+        r = case
+        try:
+            S.run_op(b, {'op': 'reset', 'reinit': True})
+            S.run_op(b, {'op': 'run', 'dt': [float(Fr(r['m'], 10 ** r['e'])), r['unit']], 'T': [_T(r), r['t_unit']]})
+        except Exception as ex:  # noqa
+            res.bad(f'C11/rerun-raised/{type(ex).__name__}', f'{case}: rerun after reset: {type(ex).__name__}: {ex}')
+            return _finish(res, case)
+        dte = _exact_si(r['m'], r['e'], r['unit'])
+        times = [Fr(x.value) * U.factor('Time', x.unit) for x in b.powertrain.time]
+        expect = [k * dte for k in range(r['n'] + 1)]
+        tol = Fr(1, 10 ** 9) * max(expect[-1], dte)
+        if len(times) != len(expect) or any(abs(g - e) > tol for g, e in zip(times, expect)):
+            res.bad('C11/rerun-after-reset/not-a-fresh-grid',
+                    f'{case}: after reset the same Solver recorded {len(times)} instants from {float(times[0]) if times else None!r} '
+                    f's to {float(times[-1]) if times else None!r} s, expected {len(expect)} from 0 to {float(expect[-1])!r} s')
+        res.classes += ('rerun',)
     return _finish(res, case)
 
 
@@ -146,6 +165,9 @@ def s_run(draw, max_n=200):
     r = {'m': draw(st.integers(1, 999)), 'e': draw(st.integers(0, 4)), 'n': draw(st.integers(2, max_n)),
          'unit': unit, 't_form': draw(st.sampled_from(['product', 'literal'])),
          't_unit': unit if draw(st.integers(0, 2)) else draw(st.sampled_from(list(U.UNITS['TimeInterval'])))}
+    if draw(st.integers(0, 5)) == 0:
+        # the TimeInterval objects were converted in place by the user before being handed to run()
+        r[draw(st.sampled_from(['T_inplace', 'dt_inplace']))] = draw(st.sampled_from(list(U.UNITS['TimeInterval'])))
     return r
 
 
@@ -157,6 +179,8 @@ def s_case(draw, max_n=200):
         c['cont']['new_solver'] = draw(st.integers(0, 2)) == 0      # the continuation may use a new Solver object
     if draw(st.integers(0, 4)) == 0:
         c['held'] = draw(st.sampled_from(['overload', 'zero-duty']))
+    if draw(st.integers(0, 4)) == 0:
+        c['rerun'] = True
     c['stop'] = draw(st.floats(0.05, 1.5)) if draw(st.integers(0, 4 if not c.get('cont') else 1)) == 0 \
         and not c.get('held') else None
     return c
